@@ -78,6 +78,10 @@ func addOrderLimitOffset(flat core.FlatRowSource, query *sql.Query) core.FlatRow
 	if query.Limit > 0 {
 		flat = core.Limit(flat, query.Limit)
 	}
+	if query.Limit == 0 && query.HasLimit {
+		// an explicit LIMIT 0 returns no rows (it is not "no limit")
+		flat = core.Limit(flat, 0)
+	}
 
 	return flat
 }
